@@ -464,6 +464,10 @@ pub struct RunCfg {
     /// `max_concurrent_scenarios`, `retries`, `retry_after`, `fail_fast`, `which_scenario`, `before`, `after`,
     /// `retry_options`, `with_cli`, and `run`'s event loop) instead of using `runner::Basic` directly
     pub via_cucumber: bool,
+    /// a STRICT executor: every poll gets a fresh `Waker`, and when nothing made progress and the environment has
+    /// nothing to move, the stream is polled again only after the waker of the LATEST poll was woken (what the `Future`
+    /// contract promises); a wake-up sent to the waker of an earlier poll does not count
+    pub strict_wakers: bool,
 }
 
 impl Default for RunCfg {
@@ -486,6 +490,7 @@ impl Default for RunCfg {
             eager: false,
             custom_retry: false,
             via_cucumber: false,
+            strict_wakers: false,
             env_script: vec![],
         }
     }
@@ -643,9 +648,7 @@ where
     // every event the run delivers also goes through the REAL `Summarize` (C01 end to end)
     let mut summ = NullW.summarized();
     futures::pin_mut!(stream);
-    let fw = Arc::new(FlagWaker(AtomicBool::new(false), std::thread::current()));
-    let waker = Waker::from(Arc::clone(&fw));
-    let mut cx = Context::from_waker(&waker);
+    let mut fw = Arc::new(FlagWaker(AtomicBool::new(false), std::thread::current()));
     let mut polls = 0usize;
     let mut ended = false;
     let mut stuck = false;
@@ -660,7 +663,12 @@ where
             stuck = true;
             break;
         }
+        if cfg.strict_wakers {
+            fw = Arc::new(FlagWaker(AtomicBool::new(false), std::thread::current()));
+        }
         fw.0.store(false, Ordering::SeqCst);
+        let waker = Waker::from(Arc::clone(&fw));
+        let mut cx = Context::from_waker(&waker);
         // poll boundary (once per poll in which something was logged)
         with(|c| if c.log.last().is_some_and(|l| l != "POLL") { c.log.push("POLL".to_owned()); });
         let before = with(|c| c.log.len());
@@ -752,7 +760,18 @@ where
                     stuck = true;
                     break;
                 }
-                if !fw.0.load(Ordering::SeqCst) {
+                if cfg.strict_wakers {
+                    // poll again only when the waker of THIS poll was woken
+                    let t0 = Instant::now();
+                    while !fw.0.load(Ordering::SeqCst) && t0.elapsed() < Duration::from_millis(6000) {
+                        std::thread::park_timeout(Duration::from_millis(5));
+                    }
+                    if !fw.0.load(Ordering::SeqCst) {
+                        log("HARNESS stuck (the waker of the latest poll was never woken)".to_owned());
+                        stuck = true;
+                        break;
+                    }
+                } else if !fw.0.load(Ordering::SeqCst) {
                     std::thread::park_timeout(Duration::from_millis(5));
                 }
             }
